@@ -19,6 +19,11 @@ var engines = []engine{
 		StubTest: []string{"internal/bgp/native"},
 	},
 	{
+		Name: "gl2", TestPkg: "internal/layer2", TestName: "TestVerifGl2", SimPkgs: []string{"internal/layer2"}, Rules: "r1,r2,r3,r4,r5", Subst: "harness/layer2_subst.json",
+		Harness:  []string{"internal/layer2"},
+		StubTest: []string{"internal/layer2"},
+	},
+	{
 		Name: "gfrrk8s", TestPkg: "internal/k8s/controllers", TestName: "TestVerifGfrrk8s", SimPkgs: gfrrk8sPkgs, Rules: "r1,r2,r3,r5",
 		Harness:  []string{"internal/k8s/controllers"},
 		StubTest: []string{"internal/k8s/controllers"},
@@ -150,7 +155,25 @@ var gfrrAssume = []string{
 
 const gfrrRule = "Each run draws the debounce and retry intervals, 1-3 submitter tasks issuing 2-11 session operations each (new sessions over several routers/VRFs with drawn parameters, advertisement sets over 7 prefixes with local preferences and standard/large communities, conflicting requests, identical resubmissions, closes, extra-info markers, BFD profiles) at drawn times, and fault kinds (signal failure, slow signal, FRR refusing a reload, failed and torn file writes); the scheduler draws every interleaving of submitters, debouncer, validator and reloader."
 
+var gl2Components = map[string]string{
+	"layer2.Announce: SetBalancer/DeleteBalancer/shouldAnnounce/gratuitous/spamLoop": "real goroutines, one released at a time by the simulator",
+	"arpResponder.run/processRequest/Gratuitous over arp.New(ifi, PacketConn)":       "real (mdlayher/arp parses and builds the frames)",
+	"raw sockets": "simulated (simarp): per-interface PacketConn, reads/writes are park points, read and write errors",
+	"LAN":         "harness task injecting ARP requests/replies (broadcast, this MAC, foreign MAC) and observing replies",
+	"NDP":         "decision function (shouldAnnounce) and reference counts only; ndp.Conn needs a real ICMPv6 socket (stated partial reach)",
+	"OS interface scan (net.Interfaces, /sys)": "not run: the harness creates one responder per simulated interface",
+}
+
+var gl2Assume = []string{
+	"a request counts as answered iff an ARP reply for the target is written between the delivery of the request to the responder and the responder's next read",
+	"linearizability is decided by porcupine v1.3.0 (10 s time-out per history; time-outs are counted as inconclusive, never reported)",
+}
+
+const gl2Rule = "Each run draws 1-2 updater tasks (2-9 announce / re-announce with changed interface scope / withdraw operations over 4 services sharing 3 addresses, IPv4 and IPv6), a LAN task injecting 3-16 frames (requests to broadcast / this MAC / a foreign MAC, replies, read errors) on 2 interfaces, the gratuitous loop on the fake clock, and write errors; the scheduler draws every interleaving."
+
 func init() {
+	props = append(props, propDef{ID: "C13", Level: "exploration", Rule: gl2Rule, Assumptions: gl2Assume, Components: gl2Components,
+		Batches: []batch{{Engine: "gl2", Variant: "", Runs: 6000, RunsT: 100000, WallS: 170, WallST: 1500}}})
 	props = append(props, propDef{ID: "C19", Level: "exploration", Rule: gfrrRule + " " + gfrrk8sRule, Assumptions: gfrrAssume, Components: merge(gfrrComponents, gfrrk8sComponents),
 		Batches: []batch{{Engine: "gfrr", Variant: "", Runs: 5000, RunsT: 80000, WallS: 170, WallST: 1200},
 			{Engine: "gfrrk8s", Variant: "", Runs: 3000, RunsT: 50000, WallS: 100, WallST: 600, Note: "frr-k8s half: debouncer + reconciler delivery of the FRRConfiguration"}}})
@@ -178,4 +201,5 @@ var selftestVariants = map[string][]string{
 	"gnative": {"", "openfuzz"},
 	"gfrr": {""},
 	"gfrrk8s": {""},
+	"gl2": {""},
 }
